@@ -621,6 +621,11 @@ static void block_here() {
 static const char* g_watch_lo = nullptr; static const char* g_watch_hi = nullptr;
 static void (*g_watch_fn)(int, const void*) = nullptr;
 void set_watch(const void* lo, const void* hi, void (*fn)(int, const void*)) { g_watch_lo = (const char*)lo; g_watch_hi = (const char*)hi; g_watch_fn = fn; }
+static std::function<void(int, int, int, int, const int*, const int*, const int*, const int*)>* g_allot_fn = nullptr;
+void set_allotment_observer(std::function<void(int, int, int, int, const int*, const int*, const int*, const int*)> fn) {
+    if (!g_allot_fn) g_allot_fn = new std::function<void(int, int, int, int, const int*, const int*, const int*, const int*)>();
+    *g_allot_fn = std::move(fn);
+}
 uint64_t my_spin_points() { return g_cur ? g_cur->spin_points : 0; }
 void set_noblock(bool on) { if (g_cur) g_cur->noblock = on; }
 
@@ -925,6 +930,7 @@ uint64_t sim_machine_time_stamp(void) {
     return g_now * 3;  // 3 GHz
 }
 void sim_tso_region(const void* p, size_t n, int on) { if (!g_active) return; if (on) sim::tso_register(p, n); else sim::tso_unregister(p, n); }
+void sim_allotment(int soft, int mand, int total, int n, const int* l, const int* mn, const int* mx, const int* al) { if (g_active && sim::g_allot_fn && *sim::g_allot_fn) (*sim::g_allot_fn)(soft, mand, total, n, l, mn, mx, al); }
 void sim_probe(const char* name) { if (g_active) sim::probe(name); }
 unsigned sim_random_salt(void) { return g_active ? (unsigned)(sim::g_time_salt * 2654435761u) : 0u; }
 int sim_spin_knob(int dflt) { return (g_active && g_cfg.spin_knob >= 0) ? g_cfg.spin_knob : dflt; }
